@@ -5,9 +5,13 @@ package main
 import (
 	"fmt"
 	"go/types"
+	"regexp"
 	"sort"
 	"strings"
 )
+
+// byte and rune are aliases of uint8 and int32: a []byte and a []uint8 are the same memory class
+var aliasRe = regexp.MustCompile(`\b(byte|rune)\b`)
 
 // Mode of integer encoding for a function.
 type Mode int
@@ -70,7 +74,18 @@ func (s *Sorts) typeName(t types.Type) string {
 	if n, ok := s.names[t]; ok {
 		return n
 	}
-	n := sanitize(types.TypeString(t, shortQual))
+	if b, ok := t.(*types.Basic); ok && b.Kind() < types.UntypedBool && int(b.Kind()) < len(types.Typ) && types.Typ[b.Kind()] != t {
+		// byte / rune are aliases: one memory class with uint8 / int32
+		n := s.typeName(types.Typ[b.Kind()])
+		s.names[t] = n
+		return n
+	}
+	n := sanitize(aliasRe.ReplaceAllStringFunc(types.TypeString(t, shortQual), func(w string) string {
+		if w == "byte" {
+			return "uint8"
+		}
+		return "int32"
+	}))
 	if len(n) > 60 {
 		n = n[:50] + fmt.Sprintf("_%x", hashStr(n))
 	}
@@ -298,6 +313,18 @@ func (s *Sorts) uintLit(t types.Type, n uint64) string {
 type HeapKey struct {
 	Name string
 	Sort string
+	Ref  string // "ptr" / "slice": the cells hold references (pointer, map, chan / slice header); "" otherwise
+}
+
+// refKind: how a value of type t carries an object reference.
+func refKind(t types.Type) string {
+	switch t.Underlying().(type) {
+	case *types.Pointer, *types.Map, *types.Chan:
+		return "ptr"
+	case *types.Slice:
+		return "slice"
+	}
+	return ""
 }
 
 func (s *Sorts) heapField(t types.Type, u *types.Struct, i int) HeapKey {
@@ -306,15 +333,15 @@ func (s *Sorts) heapField(t types.Type, u *types.Struct, i int) HeapKey {
 	if fn == "_" {
 		fn = fmt.Sprintf("blank%d", i)
 	}
-	return HeapKey{Name: fmt.Sprintf("F_%s_%s", tn, fn), Sort: fmt.Sprintf("(Array Int %s)", s.sortOf(u.Field(i).Type()))}
+	return HeapKey{Name: fmt.Sprintf("F_%s_%s", tn, fn), Sort: fmt.Sprintf("(Array Int %s)", s.sortOf(u.Field(i).Type())), Ref: refKind(u.Field(i).Type())}
 }
 
 func (s *Sorts) heapObj(t types.Type) HeapKey {
-	return HeapKey{Name: "H_" + s.typeName(t), Sort: fmt.Sprintf("(Array Int %s)", s.sortOf(t))}
+	return HeapKey{Name: "H_" + s.typeName(t), Sort: fmt.Sprintf("(Array Int %s)", s.sortOf(t)), Ref: refKind(t)}
 }
 
 func (s *Sorts) heapArr(elem types.Type) HeapKey {
-	return HeapKey{Name: "A_" + s.typeName(elem), Sort: fmt.Sprintf("(Array Int (Array %s %s))", s.idxSort(), s.sortOf(elem))}
+	return HeapKey{Name: "A_" + s.typeName(elem), Sort: fmt.Sprintf("(Array Int (Array %s %s))", s.idxSort(), s.sortOf(elem)), Ref: refKind(elem)}
 }
 
 func (s *Sorts) heapMapDom(k, v types.Type) HeapKey {
